@@ -46,7 +46,8 @@ def verdict (st : St) (env : Spec.Env) (op : Spec.OpReq) (o : Obs) (twinKey : Op
     let fails :=
       (match Spec.c05_store_contract env.pre o.trace with
         | .none => []
-        | .foundOtherRp => [s!"store-contract:{kindName}:returned-a-credential-bound-to-another-rp"]
+        | .foundOtherRp => [s!"store-contract:{kindName}:returned-a-listed-credential-bound-to-another-rp"]
+        | .foundOtherRpNoList => [s!"store-contract:{kindName}:returned-a-credential-bound-to-another-rp-without-an-id-list"]
         | .foundUnlisted => [s!"store-contract:{kindName}:returned-a-credential-not-in-the-id-list"]
         | .nothingWithoutList => [s!"store-contract:{kindName}:nothing-returned-without-an-id-list-although-the-rp-has-credentials"]
         | .missedListed => [s!"store-contract:{kindName}:listed-credential-of-the-rp-not-returned"])
